@@ -6,6 +6,8 @@ frames (descriptor id of the message's class, serialised payload) in order.
 """
 from __future__ import annotations
 
+import asyncio
+
 from hypothesis import strategies as st
 
 from vf import pbgen, wire
@@ -94,24 +96,25 @@ def run_case(case: dict) -> CaseResult:
         return run_early(case)
     res = CaseResult()
     noise = bool(case.get("noise"))
-    s = Session(noise=noise, keepalive=512.0, auto=set())
+    s = Session(noise=noise, keepalive=float(case.get("keepalive", 512.0)), auto=set())
     env = s.env
     idof = wire.ids()[1]
     expected: list = []
     marks: list = []
     invalid: list = []
+    windows: list = []
     classes_extra: set = set()
 
-    def then(sess: Session):
+    async def then(sess: Session):
         conn = sess.conn
         tr = sess.dsess.transport
         rest = b""
         for _ in range(int(case.get("pings_in", 0))):
             # the library's own one-message batches (its answer to the device's ping) are batches like any other:
             # one write each, decoding to exactly that message -- the first, the second and the third time
-            n0 = tr.n_writes
+            n0 = tr.n_writes; w0 = len(env.trace)
             tr.feed(sess.dsess.encode(pb.PingRequest()))
-            marks.append((tr.n_writes - n0, 1))
+            marks.append((tr.n_writes - n0, 1)); windows.append((w0, len(env.trace)))
             expected.append((8, b""))
             classes_extra.add("library_internal_batches")
         if case.get("partial_in"):
@@ -123,10 +126,28 @@ def run_case(case: dict) -> CaseResult:
             tr.feed(b"".join(frames[:-1]) + frames[-1][:cut])
             rest = frames[-1][cut:]
             classes_extra.add("sent_while_a_received_frame_is_incomplete")
-        for batch in case["batches"]:
+        if case.get("send_at"):
+            # the application sends shortly before / after the (silent) session's keepalive tick: its batch is still
+            # exactly its own messages (whatever the library has to say itself goes in a write of its own)
+            classes_extra.add("sent_near_a_keepalive_tick")
+            await asyncio.sleep(float(case["send_at"]))
+        for bi, batch in enumerate(case["batches"]):
             msgs = tuple(pbgen.build(getattr(pb, n), spec) for n, spec in batch)
-            n0 = tr.n_writes
+            n0 = tr.n_writes; w0 = len(env.trace)
             seq0 = len(env.trace)
+            if case.get("write_fault") and int(case["write_fault"][0]) == bi and all(type(m) in idof for m in msgs):
+                # the transport refuses this write with EAGAIN / EINTR: whatever the library makes of that, the batch is
+                # handed to the transport ONCE (a second hand-over duplicates it, and burns nonces over Noise)
+                tr.write_fail = ("raise_once", BlockingIOError(11, "Resource temporarily unavailable") if case["write_fault"][1] == "again" else InterruptedError(4, "Interrupted system call"))
+                classes_extra.add("write_refused_once")
+                try:
+                    conn.send_messages(msgs)
+                except Exception:  # noqa: BLE001
+                    pass
+                marks.append((tr.n_writes - n0, len(msgs))); windows.append((w0, len(env.trace)))
+                if tr.n_writes - n0 > 1:
+                    expected.extend((idof[type(m)], m.SerializeToString()) for m in msgs)  # (what a retry put on the wire)
+                break
             if any(type(m) not in idof for m in msgs):
                 # a batch that cannot be sent (one member has no wire type): the call is refused; whatever it does, a
                 # refused batch puts nothing on the wire and uses up nothing -- the batches after it decode as usual
@@ -143,7 +164,7 @@ def run_case(case: dict) -> CaseResult:
                 conn.send_message(msgs[0])
             else:
                 conn.send_messages(msgs)
-            marks.append((tr.n_writes - n0, len(msgs)))
+            marks.append((tr.n_writes - n0, len(msgs))); windows.append((w0, len(env.trace)))
             expected.extend((idof[type(m)], m.SerializeToString()) for m in msgs)
             if case.get("resend") and any(f.name == "key" for f in type(msgs[0]).DESCRIPTOR.fields):
                 # the caller keeps its request objects: changes one in place and sends the very same tuple again
@@ -151,9 +172,9 @@ def run_case(case: dict) -> CaseResult:
                 classes_extra.add("same_objects_resent")
                 for k in range(int(case["resend"])):
                     msgs[0].key = (msgs[0].key + 1 + k) & 0xFFFFFFFF
-                    n0 = tr.n_writes
+                    n0 = tr.n_writes; w0 = len(env.trace)
                     conn.send_messages(msgs)
-                    marks.append((tr.n_writes - n0, len(msgs)))
+                    marks.append((tr.n_writes - n0, len(msgs))); windows.append((w0, len(env.trace)))
                     expected.extend((idof[type(m)], m.SerializeToString()) for m in msgs)
         if rest:
             tr.feed(rest)
@@ -176,7 +197,9 @@ def run_case(case: dict) -> CaseResult:
             break
     c0 = next(e["seq"] for e in env.trace if e["kind"] == "connected")
     c1 = next((e["seq"] for e in env.trace if e["kind"] == "batches_done"), 10**9)
-    got = [(e["type"], e["payload"]) for e in env.trace if e["kind"] == "rx" and c0 < e["seq"] < c1]
+    # what the device decoded from the writes made DURING the batch calls (the keepalive's own pings, written from its
+    # timer, are batches of the library's own and not part of anybody else's)
+    got = [(e["type"], e["payload"]) for k, e in enumerate(env.trace) if e["kind"] == "rx" and c0 < e["seq"] < c1 and any(a <= k < b for a, b in windows)]
     errs = [e["text"] for e in env.trace if e["kind"] == "device_wire_error"]
     if errs:
         res.violations.append(Violation(ID, "c02:api:undecodable-on-device", f"{errs[:2]}"))
@@ -211,7 +234,9 @@ def _case(draw, tier):
         return {"mode": "api", "early": True, "login": draw(st.booleans()), "noise": draw(st.booleans()), "batches": [[b for b in bt if b[0] in names_ok] or [[classes[0].__name__, {}]] for bt in batches]}
     return {"mode": "api", "noise": draw(st.booleans()), "single_api": draw(st.booleans()), "batches": batches, **({"resend": draw(st.integers(1, 3))} if draw(st.integers(0, 3)) == 0 else {}),
             **({"partial_in": [draw(st.integers(0, 2)), draw(st.integers(1, 12))]} if draw(st.integers(0, 2)) == 0 else {}),
-            **({"pings_in": draw(st.integers(1, 4))} if draw(st.integers(0, 2)) == 0 else {})}
+            **({"pings_in": draw(st.integers(1, 4))} if draw(st.integers(0, 2)) == 0 else {}),
+            **({"keepalive": 4.0, "send_at": draw(st.sampled_from([0.5, 3.0, 3.25, 3.5, 3.9, 3.98, 4.0, 4.02, 7.9]))} if draw(st.integers(0, 3)) == 0 else {}),
+            **({"write_fault": [draw(st.integers(0, 3)), draw(st.sampled_from(["again", "intr"]))]} if draw(st.integers(0, 4)) == 0 else {})}
 
 
 def strategy(tier):
@@ -228,6 +253,11 @@ def enumerated(tier):
             yield {"mode": "api", "early": True, "noise": noise, "batches": [[[n, {}] for n in names[lo:lo + 2]], [[n, {}]] if False else [[n, {}] for n in names[lo + 2:lo + 8]] or [[names[0], {}]]]}
         keyed = [c.__name__ for c in client_classes() if any(f.name == "key" for f in c.DESCRIPTOR.fields)]
         yield {"mode": "api", "noise": noise, "resend": 2, "batches": [[[n, {"key": 5}]] for n in keyed[:6]] + [[[keyed[0], {"key": 1}], [keyed[1], {"key": 2}]]]}
+        for at in (3.05, 3.5, 3.9, 3.99, 4.01, 7.95):
+            yield {"mode": "api", "noise": noise, "keepalive": 4.0, "send_at": at, "batches": [[[names[0], {}], [names[1], {}]], [[names[2], {}]]]}
+        for k in (0, 1):
+            for kind in ("again", "intr"):
+                yield {"mode": "api", "noise": noise, "write_fault": [k, kind], "batches": [[[names[0], {}]], [[names[1], {}], [names[2], {}]], [[names[3], {}]]]}
         for n in (1, 2, 3):
             yield {"mode": "api", "noise": noise, "pings_in": n, "batches": [[[names[0], {}]], [[names[1], {}], [names[2], {}]]]}
         for lead in (0, 1):
